@@ -127,8 +127,23 @@ func (g *gen) randType() wenc.ValType {
 func (g *gen) randSig(maxP, maxR int) FuncSig {
 	var s FuncSig
 	np := g.r.Intn(maxP + 1)
+	pick := g.randType
+	if maxP >= 4 && g.r.Chance(1, 6) {
+		// wide signature: crosses the engines' register/stack boundaries for arguments and results
+		// (amd64: 7 integer and 8 float argument registers after the two context pointers)
+		np = 5 + g.r.Intn(9) // 5..13
+		switch g.r.Intn(4) {
+		case 0:
+			pick = func() wenc.ValType { return []wenc.ValType{i32, i64}[g.r.Intn(2)] }
+		case 1:
+			pick = func() wenc.ValType { return []wenc.ValType{f32, f64}[g.r.Intn(2)] }
+		}
+		if g.r.Chance(1, 3) {
+			maxR = 9
+		}
+	}
 	for i := 0; i < np; i++ {
-		s.Params = append(s.Params, g.randType())
+		s.Params = append(s.Params, pick())
 	}
 	nr := 0
 	switch g.r.Intn(6) {
@@ -140,7 +155,7 @@ func (g *gen) randSig(maxP, maxR int) FuncSig {
 		nr = 1 + g.r.Intn(maxR)
 	}
 	for i := 0; i < nr; i++ {
-		s.Results = append(s.Results, g.randType())
+		s.Results = append(s.Results, pick())
 	}
 	return s
 }
